@@ -87,3 +87,46 @@ Proof.
            (Ev_blind_holds cfg Hunl lib url_rel lint_lines Hb um) Hl Hg _ _ _ x e b Hn Hwf Hgd real_lab_inj' real_labc_fresh
            loc w o loc' w' H n wm Hw).
 Qed.
+
+(* ================================================================ nested for loops (Proofs/C01forN.v) with the real names ==== *)
+From BS Require Import Proofs.C01forN.
+
+Lemma real_labc_inj : forall i j, real_labc i = real_labc j -> i = j.
+Proof.
+  intros i j H. assert (Hc : In L_Continue LABEL_PREFIXES) by (cbn; auto).
+  destruct (lbl_inj _ _ _ _ Hc Hc H) as [_ E]. exact E.
+Qed.
+
+(* source-level trees: statement trees of the C01 fragment, sequencing, and for loops (the names of the temporaries are NOT part
+   of the source; [annotate] gives each loop the names the parser gives it: the label counter runs in source order) *)
+Inductive ustmt :=
+| US (s : sstmt)
+| USeq (a b : ustmt)
+| UFor (x : str) (idxo : option str) (e : expr) (body : ustmt).
+
+Fixpoint annotate (n : nat) (u : ustmt) : fstmt * nat :=
+  match u with
+  | US s => (FS s, snd (C01.compile real_lab None n s))
+  | USeq a b => let '(fa, n1) := annotate n a in let '(fb, n2) := annotate n1 b in (FSeq fa fb, n2)
+  | UFor x idxo e body =>
+    let '(fb, n1) := annotate (S n) body in (FFor (lbl L_Values n) (lbl L_Length n) (for_index n idxo) x e fb, n1)
+  end.
+
+Definition compile_u (n : nat) (u : ustmt) : list stmt := fst (gcompile real_lab real_labc None n (fst (annotate n u))).
+
+(* SIMULATION, one scope, statements with nested for loops; premises on the library only *)
+Theorem nested_for_simulation : forall cfg, c_max cfg = 0%Z ->
+  forall lib url_rel lint_lines, lib_fuel_monotone lib -> lib_count_blind lib ->
+  arrayLength_contract lib -> arrayGet_contract lib ->
+  forall um n u loc w o loc' w',
+  GExec cfg lib url_rel lint_lines um (fst (annotate n u)) (loc, w) o (loc', w') ->
+  gwf false (fst (annotate n u)) = true -> gguard (fst (annotate n u)) = true ->
+  forall wm, weq w wm ->
+  exists out wm', scope_result o = Some out /\ weq w' wm' /\
+    Run cfg lib url_rel lint_lines um (compile_u n u) 0 loc wm (out, loc', wm').
+Proof.
+  intros cfg Hunl lib url_rel lint_lines Hf Hb Hl Hg um n u loc w o loc' w' H Hwf Hgd wm Hw.
+  exact (gscope_sim cfg Hunl lib url_rel lint_lines Hf um real_lab real_labc
+           (Ev_blind_holds cfg Hunl lib url_rel lint_lines Hb um) Hl Hg _ loc w o loc' w' H Hwf Hgd n wm
+           (gcompile_NoDup real_lab real_labc real_lab_inj' real_labc_inj real_labc_fresh None n _) Hw).
+Qed.
